@@ -344,14 +344,28 @@ func (p *Parser) parseSpecs(specs []srcInput, listener *TreeShapeListener) (*sys
 			return nil, err
 		}
 
-		walker := antlr.NewParseTreeWalker()
-		walker.Walk(listener, tree)
+		if err := walkTree(listener, tree, src.filename); err != nil {
+			return nil, err
+		}
 	}
 
 	listener.lintAppDefs()
 	listener.lintEndpoint()
 	p.postProcess(listener.module)
 	return listener.module, nil
+}
+
+// walkTree builds the model of one file from its parse tree. A file can be grammatical and still invalid (for example
+// an invalid URL escape in a name), which the listener reports by panicking: that is an error of this file, not a
+// crash of the compilation.
+func walkTree(listener *TreeShapeListener, tree antlr.Tree, filename string) (err error) {
+	defer func() {
+		if r := recover(); r != nil {
+			err = syslutil.Exitf(ParseError, "%s", fmt.Sprintf("%s is invalid: %v\n", filename, r))
+		}
+	}()
+	antlr.NewParseTreeWalker().Walk(listener, tree)
+	return nil
 }
 
 // Takes a starting file and flattens all the imports that were already retrieved into an ordered list (recursively)
